@@ -195,4 +195,8 @@ Definition observe (w : world) : Z * Z * Z * Z * Z :=
   if (r_len r =? 0)%nat then (255, 255, 255, Z.of_nat (total_locked w), 0)
   else (page_perm r 0, page_perm r (r_len r - 1), 0, Z.of_nat (total_locked w), Z.of_nat (r_len r)).
 
+(* the rights of the first data page of every non-empty clone alive *)
+Definition observe_clones (w : world) : list Z :=
+  map (fun c => page_perm c 0) (filter (fun c => negb (r_len c =? 0)%nat) (w_clones w)).
+
 End ProtectedImpl.
